@@ -11,6 +11,9 @@ import (
 type Scenario struct {
 	ID   string
 	Gen  func(r *Rng, tier string) *World
+	// GenIdx, when set, replaces Gen: the world is a function of (base seed, world index),
+	// which lets a scenario enumerate a fault space across consecutive indices.
+	GenIdx func(seed uint64, idx int, tier string) *World
 	Run  func(x *X) *Violation
 	Rule string // non-triviality / distinctness rule, in words (goes to the evidence)
 }
